@@ -68,13 +68,20 @@ pub fn run(a: &Args) {
         // target shape: threads (some null-SP helpers), natural failures
         let nth = if shape == 0 { 2 } else { rng.below(6) as usize };
         let threads: Vec<ThreadSpec> = (0..nth).map(|i| ThreadSpec { kind: if (shape > 0 || i == 1) && rng.chance(1, 3) { Kind::NullSp } else { Kind::Block }, sp_off: 0x800, pages: 2, name: Some(format!("w{i}").into_bytes()), at: None }).collect();
-        let scen = Scenario { threads, lines: vec!["fd file".into(), "fd pipe".into(), "anon 2 rw- 0".into()] };
+        // the linker stream can fail because its data cannot be read, or because a loaded object's name is not valid UTF-8
+        // (a different error value travels into the soft-error list)
+        let dso_fails = shape > 0 && rng.chance(1, 2);
+        let dso_bad_name = dso_fails && rng.chance(1, 2);
+        let mut lines: Vec<String> = vec!["fd file".into(), "fd pipe".into(), "anon 2 rw- 0".into()];
+        if dso_bad_name { lines.push(format!("chain {} 4", rng.range(1, 4))); }
+        let scen = Scenario { threads, lines };
         let target = match Target::spawn(&scen, &work) { Ok(t) => t, Err(e) => { out.notes.push(format!("spawn failed: {e}")); continue; } };
         let skip_unref = shape > 0 && rng.chance(1, 3);
-        let dso_fails = shape > 0 && rng.chance(1, 3);
+        let chain_base = target.fact_hex("chain");
         let configure = |w: &mut MinidumpWriter| {
             if skip_unref { w.skip_stacks_if_mapping_unreferenced(); }
-            if dso_fails { w.set_direct_auxv_dump_info(DirectAuxvDumpInfo { program_header_count: 3, program_header_address: 0x10, linux_gate_address: 0, entry_address: 0 }); }
+            if dso_bad_name { w.set_direct_auxv_dump_info(DirectAuxvDumpInfo { program_header_count: 2, program_header_address: chain_base, linux_gate_address: 0, entry_address: 0 }); }
+            else if dso_fails { w.set_direct_auxv_dump_info(DirectAuxvDumpInfo { program_header_count: 3, program_header_address: 0x10, linux_gate_address: 0, entry_address: 0 }); }
         };
         // warm-up dump: the first stop interrupts every blocking syscall of the target; from the second stop on
         // the threads are found in the same (restarted-syscall) state, so that dumps are comparable
